@@ -29,7 +29,7 @@ func pickDistinct(rng *rand.Rand, from []int, n int) []int {
 
 // GenFlow draws a random well-formed flow.
 func GenFlow(rng *rand.Rand, o GenOpts) *FlowP {
-	f := &FlowP{OptSeed: rng.Int63(), WrapArgs: rng.Intn(4) != 0}
+	f := &FlowP{OptSeed: rng.Int63(), WrapArgs: rng.Intn(4) != 0, ErrIdent: rng.Intn(3) == 0 && !o.Modifier}
 	maxT := o.MaxTasks
 	if maxT < 2 {
 		maxT = 8
@@ -164,7 +164,7 @@ func Relist(rng *rand.Rand, f *FlowP) *FlowP {
 
 // GenPar draws a random Parallel program.
 func GenPar(rng *rand.Rand, o GenOpts) *ParP {
-	p := &ParP{OptSeed: rng.Int63(), WrapArgs: rng.Intn(4) != 0}
+	p := &ParP{OptSeed: rng.Int63(), WrapArgs: rng.Intn(4) != 0, ErrIdent: rng.Intn(3) == 0}
 	if o.Emitters && rng.Intn(2) == 0 {
 		p.Emitters = 1 + rng.Intn(3)
 		p.EmitNest = p.Emitters >= 2 && rng.Intn(2) == 0
